@@ -122,6 +122,16 @@ class ArrayType(AggregateType):
     def WithComponentType(self, componentType):
         return ArrayType(componentType, self.__arraySize)
 
+    def __eq__(self, other):
+        return (
+            isinstance(other, ArrayType)
+            and self.__arraySize == other.__arraySize
+            and self.__elementType == other.__elementType
+        )
+
+    def __hash__(self):
+        return hash(self.__arraySize)
+
     def NeedsResolve(self):
         return self.__elementType.NeedsResolve()
 
@@ -159,6 +169,19 @@ class StructType(AggregateType):
         return "StructType ({}, {})".format(
             repr(self._name), repr(self._declarations)
         )
+
+    def __eq__(self, other):
+        # A structure type which reaches a module through two imports is
+        # loaded twice; both objects describe the same type
+        return (
+            isinstance(other, StructType)
+            and self._name == other._name
+            and list(self._declarations.items())
+            == list(other._declarations.items())
+        )
+
+    def __hash__(self):
+        return hash(self._name)
 
     def GetName(self):
         return self._name
